@@ -339,8 +339,9 @@ LensR(p, pre, m, f, o, r) ==
     [] p = "C13" ->
          /\ ThresholdOK(o.post)
          /\ (m.type \in AttMgrTypes /\ ~DontCare(m)) =>
-               \/ (res = exp.res /\ o.post.attesters = r.post.attesters /\ o.post.threshold = r.post.threshold)
-               \/ (res # "ok" /\ o.post = pre)            \* refused without effect: the inequality is untouched
+               \* (both directions: the property record names "refusing threshold = number of attesters" as a
+               \*  change that breaks it -- the boundaries are exact)
+               (res = exp.res /\ o.post.attesters = r.post.attesters /\ o.post.threshold = r.post.threshold)
     [] p = "C14" /\ m.type = "Batch" ->
          LET silent == \E i \in DOMAIN m.msgs : DontCare(m.msgs[i]) IN     \* (a message the properties are silent about)
          /\ (~silent /\ res = "ok") => exp.res = "ok"              \* succeeds only if every message of it does
